@@ -46,6 +46,7 @@ import (
 	"net"
 	"os"
 	"runtime/debug"
+	"strings"
 	"sync"
 	"sync/atomic"
 	"time"
@@ -561,7 +562,10 @@ func (server *SugarDB) handleConnection(conn net.Conn) {
 		}
 		if err != nil {
 			log.Println(err)
-			if _, err = w.Write([]byte(fmt.Sprintf("-Error %s\r\n", err.Error()))); err != nil {
+			// An error reply is a single line: an error text that echoes client bytes (a key or field name
+			// with CR or LF in it) must not end the line early and desynchronise the reply stream.
+			text := strings.NewReplacer("\r", " ", "\n", " ").Replace(err.Error())
+			if _, err = w.Write([]byte(fmt.Sprintf("-Error %s\r\n", text))); err != nil {
 				log.Println(err)
 			}
 			continue
